@@ -559,4 +559,20 @@ example : perceptionConfig (("max_distance", .num 10) :: exampleConfig) ["base_l
 example : perceptionConfig (exampleConfig.filter (·.1 != "min_point_numbers")) ["base_link"] =
     .error "RuntimeError" := by decide +kernel
 
+/-! ## tie to the source: tables regenerated from the code's AST / enums on every run -/
+
+/-- the model's `is3d` agrees with `EvaluationTask.is_3d()` of the current tree, for every task value -/
+theorem is3d_agrees_with_source : ∀ p ∈ Gen.taskValueIs3d, is3d p.1 = (p.2 == "true") := by decide +kernel
+
+/-- keys the real configuration reads but that cannot influence any modelled output (label merging is
+C14's subject; the other two only select counting/legacy-policy behaviour) -/
+def readWithoutEffect : List String := ["allow_matching_unknown", "merge_similar_labels", "count_label_number"]
+
+/-- the set of dictionary keys the model reads is the set of keys the code reads (taken from the AST of
+`_check_tasks`, `_extract_label_params`, `_extract_params` on every run), up to `readWithoutEffect`:
+a change that makes the code consult another key (or stop consulting one) breaks this theorem -/
+theorem readKeys_match_source :
+    (∀ k ∈ Gen.perceptionConfigReadKeys, k ∈ readKeys ∨ k ∈ readWithoutEffect) ∧
+    (∀ k ∈ readKeys, k ∈ Gen.perceptionConfigReadKeys) := by decide +kernel
+
 end PEval.C15
